@@ -90,6 +90,16 @@ def g_pre(m):
     return g
 
 
+def g_param(m):
+    # a parameter without a default: a metadata spec named like it would supply one
+    def g(freq, amp=0.1):
+        m['iou'].Out.ar(0, m['nse'].LFNoise0.ar(freq) * amp)
+    return g
+
+
+HIST_GRAPHS['param'] = g_param
+
+
 def baseline(m, gname):
     sd = m['sdf'].SynthDef('det', GRAPHS[gname](m))
     return bytes(sd.as_bytes())
@@ -223,7 +233,8 @@ def failure_scenario(ctx, kind):
 
 # ------------------------------------------------------------------ (2b) histories of builds, reads and failures
 
-HIST_OPS = ['build sum', 'build small', 'build wide', 'read desc', 'add', 'fail', 'build prepend']
+HIST_OPS = ['build sum', 'build small', 'build wide', 'read desc', 'add', 'fail', 'build prepend', 'build param',
+            'annotate']
 
 
 def history_scenario(ctx, nops):
@@ -270,6 +281,13 @@ def history_scenario(ctx, nops):
                 if got != base[gname]:
                     raise Violation(f'graph {gname} compiles to different bytes after the history {hist} than in a '
                                     f'fresh state ({len(got)} vs {len(base[gname])} bytes)', None, data('bytes'))
+            elif op == 'annotate':
+                # the user fills in the public metadata / variants dictionaries of a definition that was built
+                # without them: that concerns this definition only
+                if last is None:
+                    raise PathAbort('nothing built yet')
+                last.metadata['specs'] = {'freq': 330.0, 'amp': 0.7}
+                last.variants['alt'] = {'amp': 0.3}
             elif op == 'read desc':
                 if last is None:
                     raise PathAbort('nothing built yet')
@@ -297,6 +315,15 @@ def history_scenario(ctx, nops):
         stray = nse.LFNoise0.ar(999)
         if stray._synthdef is not None:
             raise Violation(f'a unit created outside any build after {op!r} belongs to a definition', None, data('stray'))
+    # at the end of the history every graph still compiles to its fresh-state bytes
+    for gname in HIST_GRAPHS:
+        try:
+            got = build(gname)
+        except Exception as e:
+            raise Violation(f'graph {gname} raises {type(e).__name__}: {e} after the history {hist}', None, data('raises'))
+        if got != base[gname]:
+            raise Violation(f'graph {gname} compiles to different bytes after the history {hist} than in a fresh state '
+                            f'({len(got)} vs {len(base[gname])} bytes)', None, data('bytes'))
     ctx.obligations += 1
     ctx.discharged += 1
     ctx.note('history')
